@@ -77,10 +77,15 @@ static int print_s(void (*printchar_handler)(void *d, int c),
     int pc, len, space_count;
 
     pc = 0;
-    len = (int)strlen(str);
     if (ops & OPS_PREC_IS_GIVEN)
     {
-        len = MIN(max_len, len);
+        /* the argument need not be terminated within the precision */
+        for (len = 0; len < max_len && str[len]; ++len)
+            ;
+    }
+    else
+    {
+        len = (int)strlen(str);
     }
     space_count = width > len ? width - len : 0;
 
